@@ -161,7 +161,7 @@ class Compiler:
             if c_expression is not None and is_aggregate(c_expression):
                 raise CompilationError('aggregates are not allowed in FROM clause')
 
-            if node.open and node.close and node.open > node.close:
+            if node.open and node.close and node.close is not True and node.open > node.close:
                 raise CompilationError('CLOSE date must follow OPEN date')
 
             # Apply OPEN, CLOSE, and CLEAR clauses.
